@@ -191,14 +191,23 @@ def _shape2(t):
 class CHECK(Check):
     pid = "C16"
     technique = ("Lean 4 theorems over the Adversarial model (projection algebra on tensors of any shape, tied to the "
-                 "source by a translator lifter) + correspondence of real PyTorch training steps with the compiled model")
+                 "source by translator lifters: loop body (adv_projection.py) and statement structure of train_step "
+                 "(adv_trainstep.py)) + the whole step / whole fit as a pure function (Model/AdvStep.lean) + correspondence of real "
+                 "PyTorch training steps and whole fits with the compiled model")
     level_text = ("Theorems (all tensor shapes and sizes, all alpha): g + alpha*dLA/dW is orthogonal to dLA/dW; the matrix "
                   "Frobenius product is the dot of the flattenings; the literal three-line loop body of both engines (lifted "
                   "from the Python source: inner-product kind, tiny kind, coordinate arithmetic) equals the normalised model; "
                   "sum-of-row-pair inner products coincide with Frobenius only for single rows (2x2 counter-witness); plain "
                   "SGD observation recovers the applied gradient; branch taken when dLA/dW = 0. Tie: real torch models trained "
                   "through partial_fit with plain SGD vs the compiled Lean model and an exact Fraction oracle on the same "
-                  "autograd gradients (rel. 2e-4). TensorFlow engine: lifted structurally only, NOT exercised (not installed).")
+                  "autograd gradients (rel. 2e-4). TensorFlow engine: lifted structurally only, NOT exercised (not installed). "
+                  "Whole step (all tensors of both players, optimisers as parameters): every optimiser is handed the engine's rule / "
+                  "dLA/dU (`whole_step_feeds_optimisers`), with SGD the parameters move along -lr*g and -lr*dLA/dU (`whole_step_sgd`), "
+                  "the lifted PyTorch step is total and has the documented direction per tensor; statement structure of train_step "
+                  "(zero_grad / backward / copies / loop / optimiser steps, data-flow dependencies of LP and LA) interpreted on symbolic "
+                  ".grad buffers: copies are exactly dLP/dW and dLA/dW and the adversary applies exactly dLA/dU whatever the buffers held "
+                  "before (`lifted_train_step_gradients`). Tie: whole `fit` runs on user modules with gradients recorded by tensor hooks "
+                  "vs the fold of the model's step over the LIFTED schedule (`advstep.fit`).")
     design_ref = "DESIGN.md section 4, C16"
     quick_cases = 2400
     thorough_cases = 20000
@@ -212,16 +221,26 @@ class CHECK(Check):
             "players given as constructor callable / 'SGD' keyword / instance, lr in {1/2,1/4,1/8,1/16,1/10}; 1-2 measured "
             "batches of 1..16 pool rows after an optional warm-up step; every batch has the pool's type_of_target (else "
             "fairlearn rejects it). distinct = distinct case; non-trivial = some predictor tensor has dLA/dW != 0. "
-            "Gradient tensors with max |entry| < 1e-15 (float32 squared-underflow range) are not judged (tagged).")
+            "Gradient tensors with max |entry| < 1e-15 (float32 squared-underflow range) are not judged (tagged). "
+            "kind=fit (22% of the cases): whole fit(shuffle=False) on user-supplied torch modules (0-1 hidden layers) with plain SGD "
+            "(lr 1/8, 1/10, 1/16), n in 4..12, batch_size in {-1, 1..n+1}, epochs in {-1,1,2,3}, max_iter in {-1,1..6}, at most 6 "
+            "steps; gradients of every backward pass recorded by tensor hooks.")
     explanation = ("theorems over the Lean model Adversarial (all shapes); correspondence: parameters after partial_fit vs "
                    "`adv.step torch` / `adv.sgd` of the compiled driver on exactly converted float32 gradients, rel 2e-4; "
                    "oracle: Fractions. The TensorFlow engine is covered only by the translator's structural lift of its "
-                   "projection expression (reduce_sum(multiply(.,.)) -> frobenius, finfo(float32).tiny); it is not executed.")
+                   "projection expression (reduce_sum(multiply(.,.)) -> frobenius, finfo(float32).tiny); it is not executed. "
+                   "kind=fit: parameters after fit vs `advstep.fit` (fold of the whole-step model over the schedule interpreted from the "
+                   "lifted source, on the hook-recorded gradients) and vs the same fold in Fractions; number of backward passes vs the "
+                   "documented number of steps; `trainstep.applied` (symbolic bookkeeping of the lifted train_step) vs the documented "
+                   "`combine(dLP/dW, dLA/dW)` / `dLA/dU`.")
     trusted = ("torch.autograd gradients (inputs of the model) and torch.optim.SGD (modelled as W - lr*g)",
                "the engine's loss objects (BCELoss / CrossEntropyLoss / MSELoss, read from backendEngine_) define LP and LA",
                "the float encoding of y / sensitive features (indicator of the larger class, one-hot over sorted classes) is "
                "recomputed by the harness from the documented rule",
-               "TensorFlow engine not executed (tensorflow/keras are not installed): structural lift only")
+               "TensorFlow engine not executed (tensorflow/keras are not installed): structural lift only",
+               "torch tensor hooks deliver, per backward pass, the gradient of that pass for every parameter (kind=fit)",
+               "harness/lifters/adv_trainstep.py: statement roles of train_step by shape (zero_grad / backward / list-comprehension "
+               "copies / loop / step) and autograd dependencies by data flow (`.detach()` cuts); PyTorch accumulates into .grad")
     assumptions = ("plain SGD optimisers (no momentum / weight decay)", "float32 models on CPU, one thread",
                    "batches have the same type_of_target as the first call's data",
                    "gradient tensors are not in float32's squared-underflow range (< 1e-15), else not judged")
